@@ -73,7 +73,7 @@ class Run:
         known_open = {(k["property"], k["key"]): k for k in self.known if k.get("state") == "open"}
         real = []
         nknown = 0
-        rdir = os.path.join(VERIF, "replay", self.pid)
+        rdir = os.path.join(os.environ.get("VERIF_EVIDENCE_DIR") or VERIF, "replay", self.pid)
         for v in viol:
             fullkey = "%s:%s" % (v["rule"], v["key"])
             k = known_open.get((self.pid, fullkey))
@@ -135,8 +135,9 @@ class Run:
             "violations": len(real),
         }
         ev["coverage"].update(self.extra)
-        os.makedirs(os.path.join(VERIF, "evidence"), exist_ok=True)
-        p = os.path.join(VERIF, "evidence", "%s.json" % self.pid)
+        edir = os.environ.get("VERIF_EVIDENCE_DIR") or os.path.join(VERIF, "evidence")
+        os.makedirs(edir, exist_ok=True)
+        p = os.path.join(edir, "%s.json" % self.pid)
         with open(p + ".tmp", "w") as fh:
             json.dump(ev, fh, indent=1, default=str)
         os.replace(p + ".tmp", p)
